@@ -553,11 +553,11 @@ PTE = 'Pistache_Http_Private_BodyStep_parseTransferEncoding'
 MUC, MUIL = 'Pistache_match_until_c', 'Pistache_match_until_il'
 PROOFS = [
     {'name': 'RequestLineStep_apply', 'enforce': 'Pistache_Http_Private_RequestLineStep_apply', 'replace': [ADV, MUC, MUIL], 'loops': 'contracts',
-     'props': ['C01', 'C03'], 'cost': 90, 'timeout': 1500},
+     'props': ['C01', 'C03'], 'cost': 90, 'timeout': 3600},
     {'name': 'ResponseLineStep_apply', 'enforce': 'Pistache_Http_Private_ResponseLineStep_apply', 'replace': [ADV, MUC, 'Pistache_match_raw'], 'loops': 'contracts',
-     'props': ['C01', 'C03'], 'cost': 30, 'timeout': 1500},
+     'props': ['C01', 'C03'], 'cost': 30, 'timeout': 3600},
     {'name': 'HeadersStep_apply', 'enforce': 'Pistache_Http_Private_HeadersStep_apply', 'replace': [ADV], 'loops': 'contracts',
-     'props': ['C01', 'C03'], 'cost': 100, 'timeout': 1500},
+     'props': ['C01', 'C03'], 'cost': 100, 'timeout': 3600},
     {'name': 'BodyStep_reset', 'enforce': 'Pistache_Http_Private_BodyStep_reset', 'props': ['C04']},
     {'name': 'ParserBase_reset', 'enforce': 'Pistache_Http_Private_ParserBase_reset', 'loops': ('unwind', 5), 'props': ['C04', 'C03'],
      'complete': 'range-for over std::array<unique_ptr<Step>, 3>: exactly three iterations; unwinding assertions hold'},
